@@ -74,6 +74,9 @@ def install(eng):
         "target.name in self._tracked_jobs", "self._tracked_jobs[target.name] in sched_accepted",
         "self._tracked_jobs[target.name] not in old(sched_accepted)",
         "sched_target[self._tracked_jobs[target.name]] == target",
+        # (from the scheduler assumption) the new id is not one that was tracked or known before
+        "all(old(self._tracked_jobs)[k] != self._tracked_jobs[target.name] for k in old(self._tracked_jobs))",
+        "self._tracked_jobs[target.name] not in old(self._job_states)",
         "forall(lambda k: implies(k != target.name, (k in self._tracked_jobs) == (k in old(self._tracked_jobs)) and "
         "implies(k in self._tracked_jobs, self._tracked_jobs[k] == old(self._tracked_jobs)[k])), Name)",
         "self._job_states[self._tracked_jobs[target.name]] == BackendStatus.SUBMITTED",
